@@ -1,10 +1,862 @@
 -------------------------------- MODULE Term --------------------------------
-(* placeholder: nothing modelled yet; Trace_Term adopts every recorded state *)
-EXTENDS Integers, Sequences
-InitSt(w, h, alloc, music, bs) == [ls |-> "Default"]
-Modelled(emu) == FALSE
-Step(s, c) == [st |-> s, res |-> "ok"]
-Matches(s, e) == TRUE
-Diff(s, e) == <<>>
-Adopt(s, e) == s
+(***************************************************************************)
+(* Faithful, character-level model of the icy_engine ANSI terminal:         *)
+(* ansi::Parser::print_char (src/parsers/ansi/*.rs) composed with the       *)
+(* terminal core (Caret / Buffer / Layer / Line / TerminalState in          *)
+(* src/parsers/mod.rs, buffers.rs, layer.rs, line.rs, terminal_state.rs),   *)
+(* and the front-ends that wrap it (Avatar, PCBoard, Ctrl-A, Renegade).     *)
+(*                                                                         *)
+(* Functional style: the whole emulation state is one record `s`; every     *)
+(* critical section of the code is one operator; Step(s, c) consumes one    *)
+(* character and returns [st, res] with res in {"ok", "err", "any"}.        *)
+(* The same Step is used by MC_Term (exhaustive small-scope checking of     *)
+(* CaretInScreen and totality), Gen_Term (witness generation) and           *)
+(* Trace_Term (validation of recorded executions of the Rust code).         *)
+(*                                                                         *)
+(* Items marked (!) are quirks of the code that a textbook VT model would   *)
+(* get wrong; the model copies them because it must predict the code.       *)
+(***************************************************************************)
+EXTENDS Integers, Sequences, Palette, Xterm256
+
+MaxI == 2147483647
+Max(a, b) == IF a > b THEN a ELSE b
+Min(a, b) == IF a < b THEN a ELSE b
+Clamp(v, lo, hi) == IF v < lo THEN lo ELSE IF v > hi THEN hi ELSE v
+SatAdd(a, b) == IF b >= 0 THEN (IF a > MaxI - b THEN MaxI ELSE a + b) ELSE (IF a < (-MaxI) - b THEN -MaxI ELSE a + b)
+SatSub(a, b) == IF b >= 0 THEN (IF a < (-MaxI) + b THEN -MaxI ELSE a - b) ELSE SatAdd(a, -b)
+SatMul(a, b) == IF a = 0 \/ b = 0 THEN 0 ELSE IF a > MaxI \div b THEN MaxI ELSE a * b     \* a, b >= 0
+
+\* parse_next_number: ((10 x sat) + c sat) - 48, digits c in 48..57
+ParseNext(x, c) == LET t == IF x > 214748364 THEN MaxI ELSE x * 10
+                       u == IF t > MaxI - c THEN MaxI ELSE t + c
+                   IN u - 48
+IsDigit(c) == c >= 48 /\ c <= 57
+PushDigit(nums, c) == IF nums = <<>> THEN <<ParseNext(0, c)>> ELSE [nums EXCEPT ![Len(nums)] = ParseNext(@, c)]
+
+\* ------------------------------------------------------------------ attributes and cells
+BOLD == 1  FAINT == 2  ITALIC == 4  BLINK == 8  UNDERLINE == 16  DUNDER == 32  CONCEAL == 64
+CROSSED == 128  OVERLINE == 512  INVISIBLE == 32768
+HasBit(a, b) == (a \div b) % 2 = 1
+SetBit(a, b) == IF HasBit(a, b) THEN a ELSE a + b
+ClrBit(a, b) == IF HasBit(a, b) THEN a - b ELSE a
+PutBit(a, b, on) == IF on THEN SetBit(a, b) ELSE ClrBit(a, b)
+
+DefAttr == [fg |-> 7, bg |-> 0, at |-> 0, fp |-> 0]
+\* Caret::get_attribute: in ice mode blink folds into a bright background
+Norm(s) == IF s.ice
+           THEN [s.ca EXCEPT !.bg = IF @ < 8 /\ HasBit(s.ca.at, BLINK) THEN @ + 8 ELSE @, !.at = ClrBit(@, BLINK)]
+           ELSE s.ca
+Cell(ch, a) == <<ch, a.fg, a.bg, a.at, a.fp>>
+InvCell == <<32, 7, 0, 32768, 0>>          \* AttributedChar::invisible()
+Blank == <<32, 7, 0, 0, 0>>                \* AttributedChar::default()
+Visible(cell) == ~HasBit(cell[4], INVISIBLE)
+Transparent(cell) == (cell[1] = 0 \/ cell[1] = 32) /\ cell[3] = 0
+Scalar(c) == (c >= 0 /\ c <= 55295) \/ (c >= 57344 /\ c <= 1114111)
+
+\* ------------------------------------------------------------------ geometry (buffers.rs)
+NL(s) == Len(s.rows)
+First(s) == Max(0, s.bh - s.th)                                   \* get_first_visible_line
+HasTB(s) == s.mtb # <<>>
+FirstEdit(s) == IF HasTB(s) THEN SatAdd(First(s), s.mtb[1]) ELSE First(s)
+LastEdit(s) == IF HasTB(s) THEN SatAdd(First(s), s.mtb[2]) ELSE First(s) + s.bh - 1      \* (!) buffer height, not terminal height
+FirstCol(s) == IF s.mlr # <<>> THEN s.mlr[1] ELSE 0
+LastCol(s) == IF s.mlr # <<>> THEN s.mlr[2] ELSE s.bw - 1
+LastVisible(s) == First(s) + s.bh                                 \* (!) get_last_visible_line uses the buffer height
+UpperLeft(s) == <<0, First(s)>>                                   \* origin mode is always UpperLeftCorner ((!) ?6l is a no-op)
+SetTB(s, t, b) == [s EXCEPT !.mtb = IF t > b THEN <<>> ELSE <<t, b>>]
+SetLR(s, a, b) == [s EXCEPT !.mlr = IF a > b THEN <<>> ELSE <<a, b>>]
+Limit(s) == [s EXCEPT !.y = Clamp(s.y, First(s), First(s) + s.th - 1), !.x = Clamp(s.x, 0, Max(s.tw - 1, 0))]
+CaretInScreen(s) == s.x >= 0 /\ s.x <= s.tw - 1 /\ s.y >= First(s) /\ s.y <= First(s) + s.th - 1
+
+\* reset_tabs: every 8 columns below the width
+DefTabs(w) == [i \in 1..((w + 7) \div 8) |-> (i - 1) * 8]
+
+\* ------------------------------------------------------------------ rows and cells (layer.rs, line.rs)
+Repeat(v, n) == [i \in 1..Max(n, 0) |-> v]
+RowAt(s, y) == IF y >= 0 /\ y < NL(s) THEN s.rows[y + 1] ELSE <<>>
+RowExists(s, y) == y >= 0 /\ y < NL(s)
+\* Layer::get_char
+GetCell(s, x, y) ==
+  IF x < 0 \/ y < 0 \/ x >= s.lw \/ y >= s.lh THEN InvCell
+  ELSE IF y < NL(s) /\ x < Len(s.rows[y + 1]) THEN s.rows[y + 1][x + 1] ELSE InvCell
+\* Line::get_line_length: index after the last non-transparent cell
+RECURSIVE LineLen(_, _)
+LineLen(row, n) == IF n = 0 THEN 0 ELSE IF ~Transparent(row[n]) THEN n ELSE LineLen(row, n - 1)
+\* a run of Layer::set_char on row y for the columns lo..hi with cells F(x): rows materialised as full-width rows of
+\* invisible cells (!), the row padded with invisible cells up to the last written column
+WriteRow(s, y, lo0, hi0, F(_)) ==
+  LET lo == Max(lo0, 0)  hi == Min(hi0, s.lw - 1) IN
+  IF y < 0 \/ y >= s.lh \/ lo > hi THEN s
+  ELSE LET r1 == IF y >= NL(s) THEN s.rows \o Repeat(Repeat(InvCell, s.lw), y + 1 - NL(s)) ELSE s.rows
+           old == r1[y + 1]
+           new == [i \in 1..Max(Len(old), hi + 1) |-> IF i - 1 >= lo /\ i - 1 <= hi THEN F(i - 1) ELSE IF i <= Len(old) THEN old[i] ELSE InvCell]
+       IN [s EXCEPT !.rows = [r1 EXCEPT ![y + 1] = new]]
+SetCell(s, x, y, cell) == WriteRow(s, y, x, x, LAMBDA q : cell)
+RemoveAt(seq, i) == SubSeq(seq, 1, i - 1) \o SubSeq(seq, i + 1, Len(seq))        \* 1-based
+InsertAt(seq, i, v) == SubSeq(seq, 1, i - 1) \o <<v>> \o SubSeq(seq, i, Len(seq)) \* v becomes element i
+\* Line::set_char on an existing row (no layer bounds)
+LineSet(row, x, cell) == [i \in 1..Max(Len(row), x + 1) |-> IF i = x + 1 THEN cell ELSE IF i <= Len(row) THEN row[i] ELSE InvCell]
+\* Line::insert_char
+LineInsert(row, x, cell) == LET p == IF x > Len(row) THEN row \o Repeat(InvCell, x - Len(row)) ELSE row IN InsertAt(p, x + 1, cell)
+
+\* ------------------------------------------------------------------ scrolling (parsers/mod.rs)
+\* scroll_up: per column, rows start..end-1 take the cell below (reads see the old values), row `end` gets a default
+\* blank; executed even when start > end (!).  end row / column clamped to the layer (cells outside cannot be written).
+ScrollUp(s) ==
+  LET a == FirstEdit(s)  b == Min(LastEdit(s), s.lh)  c0 == FirstCol(s)  c1 == Min(LastCol(s), s.lw)
+      RECURSIVE Go(_, _)
+      Go(t, y) == IF y >= b THEN t ELSE Go(WriteRow(t, y, c0, c1, LAMBDA x : GetCell(s, x, y + 1)), y + 1)
+  IN IF c0 > c1 THEN s ELSE WriteRow(Go(s, a), b, c0, c1, LAMBDA x : Blank)
+ScrollDown(s) ==
+  LET a == FirstEdit(s)  b == Min(LastEdit(s), s.lh)  c0 == FirstCol(s)  c1 == Min(LastCol(s), s.lw)
+      RECURSIVE Go(_, _)
+      Go(t, y) == IF y <= a THEN t ELSE Go(WriteRow(t, y, c0, c1, LAMBDA x : GetCell(s, x, y - 1)), y - 1)
+  IN IF c0 > c1 THEN s ELSE WriteRow(Go(s, b), a, c0, c1, LAMBDA x : Blank)
+RECURSIVE Times(_, _, _)
+Times(Op(_), s, n) == IF n <= 0 THEN s ELSE Times(Op, Op(s), n - 1)
+
+\* scroll_left / scroll_right on the rows of the region that exist and are longer than the first column
+ScrollLeft(s) ==
+  LET a == FirstEdit(s)  b == Min(LastEdit(s), NL(s) - 1)  c0 == FirstCol(s)  c1 == LastCol(s) + 1 IN
+  [s EXCEPT !.rows = [i \in 1..NL(s) |->
+      LET row == s.rows[i] IN
+      IF i - 1 >= a /\ i - 1 <= b /\ c0 >= 0 /\ Len(row) > c0
+      THEN RemoveAt(InsertAt(row, Min(Max(c1, 0), Len(row)) + 1, Blank), c0 + 1) ELSE row]]
+ScrollRight(s) ==
+  LET a == FirstEdit(s)  b == Min(LastEdit(s), NL(s) - 1)  c0 == FirstCol(s)  c1 == LastCol(s) IN
+  [s EXCEPT !.rows = [i \in 1..NL(s) |->
+      LET row == s.rows[i] IN
+      IF i - 1 >= a /\ i - 1 <= b /\ c0 >= 0 /\ Len(row) > c0
+      THEN LET r1 == InsertAt(row, c0 + 1, Blank) IN IF c1 + 1 >= 0 /\ c1 + 1 < Len(r1) THEN RemoveAt(r1, c1 + 2) ELSE r1
+      ELSE row]]
+
+\* Layer::insert_line(index, empty row): pads with full-width invisible rows (!)
+LayerInsertLine(s, idx) ==
+  LET r1 == IF idx > NL(s) THEN s.rows \o Repeat(Repeat(InvCell, s.lw), idx - NL(s)) ELSE s.rows
+  IN [s EXCEPT !.rows = InsertAt(r1, idx + 1, <<>>)]
+\* insert_terminal_line: with a top/bottom margin the row at the (relative (!)) bottom index is dropped first
+InsertTermLine(s, line) ==
+  LET s1 == IF HasTB(s) /\ s.mtb[2] >= 0 /\ s.mtb[2] < NL(s) THEN [s EXCEPT !.rows = RemoveAt(s.rows, s.mtb[2] + 1)] ELSE s
+  IN LayerInsertLine(s1, Max(line, 0))
+RemoveTermLine(s, line) ==
+  IF line >= NL(s) \/ line < 0 THEN s
+  ELSE LET s1 == [s EXCEPT !.rows = RemoveAt(s.rows, line + 1)]
+       IN IF HasTB(s1) THEN LayerInsertLine(s1, Clamp(s1.mtb[2], 0, s1.lh)) ELSE s1
+
+\* ------------------------------------------------------------------ caret motion (parsers/mod.rs impl Caret)
+CheckDown(s, force) ==
+  IF (HasTB(s) \/ force) /\ s.y > LastEdit(s) THEN [ScrollUp(s) EXCEPT !.y = s.y - 1] ELSE s
+RECURSIVE CheckUpLoop(_)
+CheckUpLoop(s) == IF s.y < FirstEdit(s) THEN CheckUpLoop([ScrollDown(s) EXCEPT !.y = s.y + 1]) ELSE s
+CheckUp(s, force) ==
+  IF HasTB(s) \/ force
+  THEN CheckUpLoop([s EXCEPT !.y = Max(s.y, SatSub(FirstEdit(s), SatAdd(s.lh, 1)))])
+  ELSE s
+RECURSIVE AppendEmpty(_, _)
+AppendEmpty(rows, n) == IF n <= 0 THEN rows ELSE AppendEmpty(Append(rows, <<>>), n - 1)
+\* Caret::lf: new rows are EMPTY rows (!); the buffer height grows with the caret
+Lf(s) ==
+  LET ooe == s.y > LastEdit(s)
+      s1 == [s EXCEPT !.x = 0, !.y = s.y + 1]
+      s2 == [s1 EXCEPT !.rows = AppendEmpty(s1.rows, s1.y + 1 - NL(s1))]
+      s3 == [s2 EXCEPT !.bh = Max(s2.bh, s2.y + 1)]
+  IN IF ooe THEN Limit(s3) ELSE CheckDown(s3, FALSE)
+\* TerminalState::from(size) as used by reset_terminal
+ResetTerminal(s) == [s EXCEPT !.mtb = <<>>, !.mlr = <<>>, !.aw = TRUE, !.dm = FALSE, !.tabs = DefTabs(s.tw), !.fsel = 99, !.fslots = <<0, 0, 0, 0>>]
+ResetColor(s) == [s EXCEPT !.ca = [DefAttr EXCEPT !.fp = s.ca.fp]]
+CaretReset(s) == [s EXCEPT !.x = 0, !.y = 0, !.ca = DefAttr, !.im = FALSE, !.vis = TRUE, !.cblink = TRUE, !.ice = FALSE]
+\* Caret::ff
+Ff(s) == ResetColor([ResetTerminal(s) EXCEPT !.rows = <<>>, !.lhl = 0, !.ps = 0, !.bw = s.tw, !.bh = s.th, !.x = 0, !.y = 0, !.vis = TRUE])
+Up(s, n) == Limit(CheckUp([s EXCEPT !.y = SatSub(s.y, n)], FALSE))
+Down(s, n) == Limit(CheckDown([s EXCEPT !.y = SatAdd(s.y, n)], FALSE))
+Left(s, n) == Limit([s EXCEPT !.x = SatSub(s.x, n)])
+Right(s, n) == Limit([s EXCEPT !.x = SatAdd(s.x, n)])
+Index(s) == Limit(CheckDown([s EXCEPT !.y = s.y + 1], TRUE))
+ReverseIndex(s) == Limit(CheckUp([s EXCEPT !.y = s.y - 1], TRUE))
+NextLine(s) == Limit(CheckDown([s EXCEPT !.y = s.y + 1, !.x = 0], TRUE))
+Bs(s) == LET s1 == [s EXCEPT !.x = Max(0, s.x - 1)] IN SetCell(s1, s1.x, s1.y, Cell(32, s1.ca))
+Del(s) == IF RowExists(s, s.y) /\ s.x >= 0 /\ s.x < Len(RowAt(s, s.y)) THEN [s EXCEPT !.rows[s.y + 1] = RemoveAt(@, s.x + 1)] ELSE s
+Ins(s) == IF RowExists(s, s.y) /\ s.x >= 0 /\ s.x < Len(RowAt(s, s.y)) THEN [s EXCEPT !.rows[s.y + 1] = InsertAt(@, s.x + 1, Cell(32, s.ca))] ELSE s
+Erase(s, n0) ==
+  LET n == Min(s.tw - s.x, n0) IN
+  IF n <= 0 \/ ~RowExists(s, s.y) THEN s
+  ELSE LET old == RowAt(s, s.y)
+           new == [i \in 1..Max(Len(old), s.x + n) |-> IF i - 1 >= s.x /\ i - 1 < s.x + n THEN Cell(32, s.ca) ELSE IF i <= Len(old) THEN old[i] ELSE InvCell]
+       IN [s EXCEPT !.rows[s.y + 1] = new]
+
+\* Buffer::print_char
+PrintCh(s, cell) ==
+  LET s1 == IF s.im
+            THEN LET r1 == AppendEmpty(s.rows, s.y + 1 - NL(s)) IN [s EXCEPT !.rows = [r1 EXCEPT ![s.y + 1] = LineInsert(@, s.x, Blank)]]
+            ELSE s
+      s2 == [s1 EXCEPT !.lh = Max(s1.lh, s1.y + 1), !.bh = Max(s1.bh, s1.y + 1)]
+      s3 == SetCell(s2, s2.x, s2.y, cell)
+      s4 == [s3 EXCEPT !.x = s3.x + 1]
+  IN IF s4.x >= s4.tw THEN (IF s4.aw THEN Lf(s4) ELSE [s4 EXCEPT !.x = s4.x - 1]) ELSE s4
+
+\* ------------------------------------------------------------------ erase functions
+RECURSIVE FillRows(_, _, _, _, _, _)
+FillRows(s, y, yEnd, lo, hi, cell) == IF y > yEnd THEN s ELSE FillRows(WriteRow(s, y, lo, hi, LAMBDA x : cell), y + 1, yEnd, lo, hi, cell)
+ClearDown(s) == FillRows(s, s.y, LastVisible(s) - 1, 0, s.bw - 1, Cell(32, s.ca))
+ClearUp(s) == FillRows(s, First(s), s.y - 1, 0, s.bw - 1, Cell(32, s.ca))
+ClearLine(s) == WriteRow(s, s.y, 0, s.bw - 1, LAMBDA x : Cell(32, s.ca))
+ClearLineEnd(s) == WriteRow(s, s.y, s.x, s.bw - 1, LAMBDA x : Cell(32, s.ca))
+ClearLineStart(s) == WriteRow(s, s.y, 0, s.x - 1, LAMBDA x : Cell(32, s.ca))
+ClearScreen(s) == [s EXCEPT !.x = 0, !.y = 0, !.rows = <<>>, !.lhl = 0, !.ps = 0, !.bw = s.tw, !.bh = s.th]
+
+\* ------------------------------------------------------------------ tab stops (terminal_state.rs)
+RECURSIVE NextTabFrom(_, _, _)
+NextTabFrom(tabs, x, i) == IF i > Len(tabs) THEN -1 ELSE IF tabs[i] > x THEN tabs[i] ELSE NextTabFrom(tabs, x, i + 1)
+NextTab(s, x) == LET t == NextTabFrom(s.tabs, x, 1) IN IF t < 0 THEN s.tw ELSE t
+RECURSIVE PrevTabFrom(_, _, _)
+PrevTabFrom(tabs, x, i) == IF i < 1 THEN 0 ELSE IF tabs[i] < x THEN tabs[i] ELSE PrevTabFrom(tabs, x, i - 1)
+PrevTab(s, x) == PrevTabFrom(s.tabs, x, Len(s.tabs))
+RemoveTab(tabs, x) == SelectSeq(tabs, LAMBDA t : t # x)
+RECURSIVE InsertSorted(_, _)
+InsertSorted(tabs, x) == IF tabs = <<>> THEN <<x>> ELSE IF x < Head(tabs) THEN <<x>> \o tabs ELSE <<Head(tabs)>> \o InsertSorted(Tail(tabs), x)
+SetTab(tabs, x) == IF \E i \in 1..Len(tabs) : tabs[i] = x THEN tabs ELSE InsertSorted(tabs, x)
+
+\* ------------------------------------------------------------------ results
+Ok(s) == [st |-> s, res |-> "ok"]
+Err(s) == [st |-> s, res |-> "err"]
+AnyRes(s) == [st |-> s, res |-> "any"]
+Dflt(s) == [s EXCEPT !.ls = "Default"]
+N1(s, d) == IF s.nums = <<>> THEN d ELSE s.nums[1]           \* first parameter or default
+NLen(s) == Len(s.nums)
+
+\* ------------------------------------------------------------------ SGR (ansi_commands.rs select_graphic_rendition)
+ColOff == <<0, 4, 2, 6, 1, 5, 3, 7>>
+PalInsert(s, c) == LET r == Insert(s.pal, c) IN [st |-> [s EXCEPT !.pal = r.colors], idx |-> r.ret]
+\* parse_extended_colors at 0-based index i: returns [ok, st, color, i]
+ExtColor(s, i) ==
+  LET n == s.nums  len == Len(n)  Bad == [ok |-> FALSE, st |-> s, color |-> 0, i |-> i] IN
+  IF i + 1 >= len THEN Bad
+  ELSE IF n[i + 2] = 5 THEN
+         (IF i + 3 > len THEN Bad
+          ELSE LET col == n[i + 3] IN
+               IF col >= 0 /\ col <= 255 THEN LET r == PalInsert(s, Xterm256[col + 1]) IN [ok |-> TRUE, st |-> r.st, color |-> r.idx, i |-> i + 3] ELSE Bad)
+  ELSE IF n[i + 2] = 2 THEN
+         (IF i + 5 > len THEN Bad
+          ELSE LET r == n[i + 3]  g == n[i + 4]  b == n[i + 5] IN
+               IF r >= 0 /\ r <= 255 /\ g >= 0 /\ g <= 255 /\ b >= 0 /\ b <= 255
+               THEN LET q == PalInsert(s, <<r, g, b>>) IN [ok |-> TRUE, st |-> q.st, color |-> q.idx, i |-> i + 5] ELSE Bad)
+  ELSE Bad
+RECURSIVE SgrLoop(_, _)
+SgrLoop(s, i) ==     \* i is 0-based
+  IF i >= Len(s.nums) THEN Ok(s)
+  ELSE LET n == s.nums[i + 1]
+           A(f) == SgrLoop([s EXCEPT !.ca.at = f], i + 1) IN
+    CASE n = 0 -> SgrLoop(ResetColor(s), i + 1)
+      [] n = 1 -> A(SetBit(s.ca.at, BOLD))
+      [] n = 2 -> A(SetBit(s.ca.at, FAINT))
+      [] n = 3 -> A(SetBit(s.ca.at, ITALIC))
+      [] n = 4 -> A(SetBit(s.ca.at, UNDERLINE))
+      [] n = 5 \/ n = 6 -> A(SetBit(s.ca.at, BLINK))
+      [] n = 7 -> SgrLoop([s EXCEPT !.ca.fg = s.ca.bg, !.ca.bg = s.ca.fg], i + 1)
+      [] n = 8 -> A(SetBit(s.ca.at, CONCEAL))
+      [] n = 9 -> A(SetBit(s.ca.at, CROSSED))
+      [] n = 10 -> SgrLoop([s EXCEPT !.ca.fp = 0], i + 1)
+      [] n >= 11 /\ n <= 20 -> SgrLoop(s, i + 1)
+      [] n = 21 -> A(SetBit(s.ca.at, DUNDER))
+      [] n = 22 -> A(ClrBit(ClrBit(s.ca.at, BOLD), FAINT))
+      [] n = 23 -> A(ClrBit(s.ca.at, ITALIC))
+      [] n = 24 -> A(ClrBit(s.ca.at, UNDERLINE))
+      [] n = 25 -> A(ClrBit(s.ca.at, BLINK))
+      [] n = 28 -> A(ClrBit(s.ca.at, CONCEAL))
+      [] n = 29 -> A(ClrBit(s.ca.at, CROSSED))
+      [] n >= 30 /\ n <= 37 -> SgrLoop([s EXCEPT !.ca.fg = ColOff[n - 29]], i + 1)
+      [] n = 38 -> LET r == ExtColor(s, i) IN IF r.ok THEN SgrLoop([r.st EXCEPT !.ca.fg = r.color], r.i) ELSE Err(s)
+      [] n = 39 -> SgrLoop([s EXCEPT !.ca.fg = 7], i + 1)
+      [] n >= 40 /\ n <= 47 -> SgrLoop([s EXCEPT !.ca.bg = ColOff[n - 39]], i + 1)
+      [] n = 48 -> LET r == ExtColor(s, i) IN IF r.ok THEN SgrLoop([r.st EXCEPT !.ca.bg = r.color], r.i) ELSE Err(s)
+      [] n = 49 -> SgrLoop([s EXCEPT !.ca.bg = 0], i + 1)
+      [] n = 53 -> A(SetBit(s.ca.at, OVERLINE))
+      [] n = 55 -> A(ClrBit(s.ca.at, OVERLINE))
+      [] n >= 90 /\ n <= 97 -> SgrLoop([s EXCEPT !.ca.fg = 8 + ColOff[n - 89]], i + 1)
+      [] n >= 100 /\ n <= 107 -> SgrLoop([s EXCEPT !.ca.bg = 8 + ColOff[n - 99]], i + 1)
+      [] OTHER -> Err(s)                                      \* 26, 27 (!), 50-52, 54, 56-89, ...
+Sgr(s0) == LET s == Dflt(s0) IN IF s.nums = <<>> THEN Ok(ResetColor(s)) ELSE SgrLoop(s, 0)
+
+\* ------------------------------------------------------------------ rectangles (DECFRA / DECERA / DECSERA)
+RectArea(s, o) ==     \* get_rect_area(offset o): parameters o+1..o+4 (1-based into nums: o+1 ..)
+  LET rowsMax == Max(NL(s), s.th)
+      top == Min(Max(s.nums[o + 1], 1), rowsMax) - 1
+      left == Min(Max(s.nums[o + 2], 1), s.tw) - 1
+      bottom == Min(Max(s.nums[o + 3], 1), rowsMax) - 1
+      right == Min(Max(s.nums[o + 4], 1), s.tw) - 1
+  IN <<top, left, bottom, right>>
+\* Buffer::get_char on the single terminal layer: an invisible or absent cell reads as a default blank
+BufGet(s, x, y) == LET c == GetCell(s, x, y) IN IF Visible(c) THEN c ELSE Blank
+
+\* ------------------------------------------------------------------ macros
+\* a macro store is a sequence of <<id, body>> pairs (latest definition wins)
+RECURSIVE MacroFind(_, _, _)
+MacroFind(ms, id, i) == IF i < 1 THEN <<FALSE, <<>>>> ELSE IF ms[i][1] = id THEN <<TRUE, ms[i][2]>> ELSE MacroFind(ms, id, i - 1)
+MacroGet(s, id) == MacroFind(s.macros, id, Len(s.macros))
+MacroPut(s, id, body) == [s EXCEPT !.macros = Append(SelectSeq(s.macros, LAMBDA m : m[1] # id), <<id, body>>)]
+MaxMacroExpansion == 32767
+MaxMacroDepth == 16
+ByteLen(str) == LET RECURSIVE BL(_, _)
+                    BL(i, acc) == IF i > Len(str) THEN acc ELSE BL(i + 1, acc + (IF str[i] < 128 THEN 1 ELSE 2))
+                IN BL(1, 0)
+HexPos(c) == IF c >= 48 /\ c <= 57 THEN c - 48 ELSE IF c >= 65 /\ c <= 70 THEN c - 55 ELSE -1
+Upper(c) == IF c >= 97 /\ c <= 122 THEN c - 32 ELSE c
+\* push_repeated
+RECURSIVE PushRepeated(_, _, _)
+PushRepeated(mac, rep, count) ==
+  IF count <= 0 \/ rep = <<>> \/ ByteLen(mac) + ByteLen(rep) > 32767 THEN mac ELSE PushRepeated(mac \o rep, rep, count - 1)
+\* parse_hex_macro_sequence over the characters str[i..]; state: mode in {"first","second","rep"}
+RECURSIVE HexMacro(_, _, _, _, _, _, _, _)
+HexMacro(str, i, mode, arg, readRep, repRec, repNum, mac) ==
+  IF i > Len(str) THEN [ok |-> TRUE, body |-> IF readRep THEN PushRepeated(mac, repRec, repNum) ELSE mac]
+  ELSE LET c == str[i] IN
+    IF mode = "first" THEN
+      (IF c = 59 /\ readRep THEN HexMacro(str, i + 1, "first", 0, FALSE, repRec, repNum, PushRepeated(mac, repRec, repNum))
+       ELSE IF c = 33 THEN HexMacro(str, i + 1, "rep", 0, readRep, repRec, repNum, mac)
+       ELSE HexMacro(str, i + 1, "second", c, readRep, repRec, repNum, mac))
+    ELSE IF mode = "second" THEN
+      (LET hi == HexPos(arg)  lo == HexPos(Upper(c)) IN      \* (!) only the second digit is upper-cased
+       IF hi >= 0 /\ lo >= 0
+       THEN (IF readRep THEN HexMacro(str, i + 1, "first", 0, readRep, Append(repRec, hi * 16 + lo), repNum, mac)
+             ELSE HexMacro(str, i + 1, "first", 0, readRep, repRec, repNum, Append(mac, hi * 16 + lo)))
+       ELSE [ok |-> FALSE, body |-> <<>>])
+    ELSE \* "rep"
+      (IF IsDigit(c) THEN HexMacro(str, i + 1, "rep", ParseNext(arg, c), readRep, repRec, repNum, mac)
+       ELSE IF c = 59 THEN HexMacro(str, i + 1, "first", 0, TRUE, <<>>, arg, mac)
+       ELSE [ok |-> FALSE, body |-> <<>>])
+
+\* number prefix of a string (digits and ';'), appended to nums: returns <<nums, count>>
+RECURSIVE NumPrefix(_, _, _)
+NumPrefix(str, i, nums) ==
+  IF i > Len(str) THEN <<nums, i - 1>>
+  ELSE IF IsDigit(str[i]) THEN NumPrefix(str, i + 1, PushDigit(nums, str[i]))
+  ELSE IF str[i] = 59 THEN NumPrefix(str, i + 1, Append(nums, 0))
+  ELSE <<nums, i - 1>>
+StartsWith(str, i, pre) == Len(str) >= i - 1 + Len(pre) /\ SubSeq(str, i, i - 1 + Len(pre)) = pre
+CTermFont == <<67, 84, 101, 114, 109, 58, 70, 111, 110, 116, 58>>      \* "CTerm:Font:"
+
+\* ------------------------------------------------------------------ OSC 4 palette regex  (\d+)?;rgb:HH/HH/HH
+IsHex(c) == IsDigit(c) \/ (c >= 65 /\ c <= 70) \/ (c >= 97 /\ c <= 102)
+HexVal(c) == IF IsDigit(c) THEN c - 48 ELSE IF c >= 97 THEN c - 87 ELSE c - 55
+RECURSIVE DigitsEnd(_, _)
+DigitsEnd(str, i) == IF i <= Len(str) /\ IsDigit(str[i]) THEN DigitsEnd(str, i + 1) ELSE i     \* first index after the digit run
+\* does ";rgb:HH/HH/HH" start at position p?
+RgbAt(str, p) ==
+  /\ p + 12 <= Len(str)
+  /\ str[p] = 59 /\ (str[p + 1] = 114 \/ str[p + 1] = 82) /\ (str[p + 2] = 103 \/ str[p + 2] = 71) /\ (str[p + 3] = 98 \/ str[p + 3] = 66) /\ str[p + 4] = 58
+  /\ IsHex(str[p + 5]) /\ IsHex(str[p + 6]) /\ str[p + 7] = 47 /\ IsHex(str[p + 8]) /\ IsHex(str[p + 9]) /\ str[p + 10] = 47
+  /\ IsHex(str[p + 11]) /\ IsHex(str[p + 12])
+RECURSIVE DecVal(_, _, _, _)
+DecVal(str, i, j, acc) == IF i >= j THEN acc ELSE IF acc > 999999999 THEN MaxI ELSE DecVal(str, i + 1, j, acc * 10 + (str[i] - 48))   \* MaxI = does not fit in u32 (approximation: > 9 digits)
+\* scan from p: returns [st, res]
+RECURSIVE OscPalette(_, _, _)
+OscPalette(s, str, p) ==
+  IF p > Len(str) THEN Ok(s)
+  ELSE LET d == DigitsEnd(str, p) IN
+       IF RgbAt(str, d)
+       THEN LET rgb == <<HexVal(str[d + 5]) * 16 + HexVal(str[d + 6]), HexVal(str[d + 8]) * 16 + HexVal(str[d + 9]), HexVal(str[d + 11]) * 16 + HexVal(str[d + 12])>>
+                idx == DecVal(str, p, d, 0) IN
+            IF d = p THEN OscPalette(s, str, d + 13)                                  \* no index: skipped
+            ELSE IF idx = MaxI THEN Err(s)                                            \* index does not parse as u32
+            ELSE IF idx > 255 THEN OscPalette(s, str, d + 13)
+            ELSE OscPalette([s EXCEPT !.pal = SetColor(s.pal, idx, rgb).colors], str, d + 13)
+       ELSE OscPalette(s, str, p + 1)
+
+\* ------------------------------------------------------------------ ANSI music (sound.rs)
+MusicEnter(s) == [s EXCEPT !.ls = "Music", !.mus = [k |-> "style", a |-> 0, b |-> 0], !.dotted = FALSE]
+MusicDefault(s, c) ==
+  LET M(k, a) == [s EXCEPT !.mus = [k |-> k, a |-> a, b |-> 0]] IN
+  CASE c = 14 -> [s EXCEPT !.ls = "Default", !.octave = 3]
+    [] c = 84 -> M("tempo", 0)
+    [] c = 76 -> M("length", 0)
+    [] c = 79 -> M("octave", 0)
+    [] c = 67 -> M("note", 0)  [] c = 68 -> M("note", 2)  [] c = 69 -> M("note", 4)  [] c = 70 -> M("note", 5)
+    [] c = 71 -> M("note", 7)  [] c = 65 -> M("note", 9)  [] c = 66 -> M("note", 11)
+    [] c = 77 -> M("style", 0)
+    [] c = 60 -> [s EXCEPT !.octave = IF @ > 0 THEN @ - 1 ELSE @]
+    [] c = 62 -> [s EXCEPT !.octave = IF @ < 6 THEN @ + 1 ELSE @]
+    [] c = 80 -> M("pause", 0)
+    [] OTHER -> s
+RECURSIVE MusicStep(_, _)
+MusicStep(s, c) ==
+  LET m == s.mus  SetM(k, a, b) == [s EXCEPT !.mus = [k |-> k, a |-> a, b |-> b]] IN
+  CASE m.k = "style" ->
+         IF c \in {70, 66, 78, 76, 83} THEN Ok(SetM("default", 0, 0)) ELSE MusicStep(SetM("default", 0, 0), c)
+    [] m.k = "tempo" ->
+         IF IsDigit(c) THEN Ok(SetM("tempo", ParseNext(m.a, c) % 65536, 0))
+         ELSE Ok(MusicDefault([SetM("default", 0, 0) EXCEPT !.tempo = Clamp(m.a, 32, 255)], c))
+    [] m.k = "octave" ->
+         IF c >= 48 /\ c <= 54 THEN Ok([SetM("default", 0, 0) EXCEPT !.octave = c - 48]) ELSE Err(s)
+    [] m.k = "note" ->
+         IF c = 43 \/ c = 35 THEN Ok(IF m.a + 1 < 84 THEN SetM("note", m.a + 1, m.b) ELSE SetM("default", 0, 0))
+         ELSE IF c = 45 THEN Ok(IF m.a > 0 THEN SetM("note", m.a - 1, m.b) ELSE SetM("default", 0, 0))
+         ELSE IF IsDigit(c) THEN Ok(SetM("note", m.a, ParseNext(m.b, c)))
+         ELSE IF c = 46 THEN Ok([SetM("note", m.a, SatMul(m.b, 3) \div 2) EXCEPT !.dotted = TRUE])
+         ELSE Ok(MusicDefault([SetM("default", 0, 0) EXCEPT !.dotted = FALSE], c))
+    [] m.k = "length" ->
+         IF IsDigit(c) THEN Ok(SetM("length", ParseNext(m.a, c), 0))
+         ELSE IF c = 46 THEN Ok(SetM("length", SatMul(m.a, 3) \div 2, 0))
+         ELSE Ok(MusicDefault([s EXCEPT !.mlength = Clamp(m.a, 1, 64)], c))          \* (!) the state stays SetLength unless c starts something
+    [] m.k = "pause" ->
+         IF IsDigit(c) THEN Ok(SetM("pause", ParseNext(m.a, c), 0))
+         ELSE IF c = 46 THEN Ok(SetM("pause", SatMul(m.a, 3) \div 2, 0))
+         ELSE Ok(MusicDefault(s, c))
+    [] OTHER -> Ok(MusicDefault(s, c))
+
+\* ------------------------------------------------------------------ the character step
+RECURSIVE AnsiStep(_, _), RunMacro(_, _, _), InvokeMacro(_, _)
+
+\* invoke_macro_by_id: nesting <= 16, one top-level invocation expands to <= 32767 characters; errors are swallowed
+InvokeMacro(s, id) ==
+  LET m == MacroGet(s, id) IN
+  IF ~m[1] THEN s
+  ELSE LET s1 == IF s.mdepth = 0 THEN [s EXCEPT !.mbudget = MaxMacroExpansion] ELSE s IN
+       IF s1.mdepth >= MaxMacroDepth THEN s1
+       ELSE [RunMacro([s1 EXCEPT !.mdepth = @ + 1], m[2], 1) EXCEPT !.mdepth = @ - 1]
+RunMacro(s, body, i) ==
+  IF i > Len(body) \/ s.mbudget = 0 THEN s
+  ELSE RunMacro(AnsiStep([s EXCEPT !.mbudget = @ - 1], body[i]).st, body, i + 1)
+
+\* ESC <c>
+EscStep(s0, c) ==
+  LET s == Dflt(s0) IN
+  CASE c = 91 -> Ok([s EXCEPT !.ls = "Csi", !.start = TRUE, !.nums = <<>>])
+    [] c = 93 -> Ok([s EXCEPT !.ls = "Osc", !.nums = <<>>, !.pstr = <<>>])
+    [] c = 55 -> Ok([s EXCEPT !.sc = <<[x |-> s.x, y |-> s.y, ca |-> s.ca, im |-> s.im, vis |-> s.vis, cblink |-> s.cblink, ice |-> s.ice]>>])
+    [] c = 56 -> Ok(IF s.sc = <<>> THEN s
+                    ELSE LET q == s.sc[1] IN Limit([s EXCEPT !.x = q.x, !.y = q.y, !.ca = q.ca, !.im = q.im, !.vis = q.vis, !.cblink = q.cblink, !.ice = q.ice]))
+    [] c = 99 -> Ok([ResetTerminal(CaretReset(Ff(s))) EXCEPT !.macros = <<>>])
+    [] c = 68 -> Ok(Index(s))
+    [] c = 77 -> Ok(ReverseIndex(s))
+    [] c = 69 -> Ok(NextLine(s))
+    [] c = 80 -> Ok([s EXCEPT !.ls = "Dcs", !.pstr = <<>>, !.nums = <<>>])
+    [] c = 72 -> Ok([s EXCEPT !.tabs = SetTab(s.tabs, s.x)])
+    [] c = 95 -> Ok([s EXCEPT !.ls = "Aps", !.pstr = <<>>])
+    [] c >= 48 /\ c <= 126 -> Ok(s)
+    [] c \in {12, 7, 8, 9, 127, 27, 10, 13} -> Ok(PrintCh([s EXCEPT !.last = c], Cell(c, Norm(s))))
+    [] OTHER -> Err(s)
+
+\* execute_dcs at ESC \
+ExecDcs(s0) ==
+  LET s == Dflt(s0) IN
+  IF StartsWith(s.pstr, 1, CTermFont) THEN AnyRes(s)                    \* custom font: base64 + font loader not modelled
+  ELSE LET np == NumPrefix(s.pstr, 1, <<>>)
+           nums == np[1]  i == np[2]
+           s1 == [s EXCEPT !.nums = nums] IN
+       IF StartsWith(s.pstr, i + 1, <<33, 122>>) THEN             \* "!z" macro definition
+         (IF nums = <<>> THEN Err(s1)
+          ELSE LET s2 == IF Len(nums) >= 2 /\ nums[2] = 1 THEN [s1 EXCEPT !.macros = <<>>] ELSE s1
+                   body == SubSeq(s.pstr, i + 3, Len(s.pstr)) IN
+               IF Len(nums) >= 3 /\ nums[3] = 0 THEN Ok(MacroPut(s2, nums[1], body))
+               ELSE IF Len(nums) >= 3 /\ nums[3] = 1
+                    THEN LET h == HexMacro(body, 1, "first", 0, FALSE, <<>>, 0, <<>>) IN IF h.ok THEN Ok(MacroPut(s2, nums[1], h.body)) ELSE Err(s2)
+               ELSE Err(s2))
+       ELSE IF StartsWith(s.pstr, i + 1, <<113>>) THEN Ok([s1 EXCEPT !.ps = @ + 1, !.pstr = <<>>])     \* sixel: decode thread queued
+       ELSE Err(s1)
+
+\* parse_osc at ESC \
+ExecOsc(s0) ==
+  LET s == Dflt(s0)
+      np == NumPrefix(s.pstr, 1, s.nums)
+      s1 == [s EXCEPT !.nums = np[1]]
+      i == np[2] IN
+  IF s1.nums # <<>> /\ s1.nums[1] = 4 THEN OscPalette(s1, s.pstr, 1)
+  ELSE IF i = 3 /\ s1.nums[1] = 8 THEN
+    (IF Len(s.pstr) = 3
+     THEN LET s2 == [s1 EXCEPT !.ca.at = ClrBit(@, UNDERLINE)] IN
+          Ok(IF s2.phl = 0 THEN s2 ELSE [s2 EXCEPT !.phl = @ - 1, !.lhl = @ + 1])
+     ELSE Ok([s1 EXCEPT !.ca.at = SetBit(@, UNDERLINE), !.phl = @ + 1]))
+  ELSE Err(s1)
+
+\* CSI ? ...
+CsiQStep(s, c) ==
+  LET one == NLen(s) = 1  n == N1(s, -1)  d == Dflt(s) IN
+  CASE c = 108 ->   \* 'l'
+         IF ~one THEN Err(d)
+         ELSE CASE n = 4 \/ n = 6 -> Ok(d)
+                [] n = 7 -> Ok([d EXCEPT !.aw = FALSE])
+                [] n = 25 -> Ok([d EXCEPT !.vis = FALSE])
+                [] n = 33 -> Ok([d EXCEPT !.ice = FALSE])
+                [] n = 35 -> Ok([d EXCEPT !.cblink = TRUE])
+                [] n = 69 -> Ok([d EXCEPT !.dm = FALSE, !.mlr = <<>>])
+                [] n = 9 \/ (n >= 1000 /\ n <= 1007) \/ n = 1015 \/ n = 1016 -> Ok(d)
+                [] OTHER -> Err(d)
+    [] c = 104 ->   \* 'h'
+         IF ~one THEN Err(d)
+         ELSE CASE n = 4 \/ n = 6 -> Ok(d)
+                [] n = 7 -> Ok([d EXCEPT !.aw = TRUE])
+                [] n = 25 -> Ok([d EXCEPT !.vis = TRUE])
+                [] n = 33 -> Ok([d EXCEPT !.ice = TRUE, !.bice = TRUE])
+                [] n = 35 -> Ok([d EXCEPT !.cblink = FALSE])
+                [] n = 69 -> Ok([d EXCEPT !.dm = TRUE])
+                [] n = 9 \/ (n >= 1000 /\ n <= 1007) \/ n = 1015 \/ n = 1016 -> Ok(d)
+                [] OTHER -> Err(d)
+    [] IsDigit(c) -> Ok([s EXCEPT !.nums = PushDigit(s.nums, c)])
+    [] c = 59 -> Ok([s EXCEPT !.nums = Append(s.nums, 0)])
+    [] c = 110 ->   \* 'n'
+         IF n = 62 THEN Ok(d) ELSE IF n = 63 THEN (IF NLen(s) = 2 THEN Ok(d) ELSE Err(d)) ELSE Err(d)
+    [] OTHER -> Err(d)
+
+\* CSI = ...
+CsiEqStep(s, c) ==
+  LET d == Dflt(s) IN
+  CASE c = 110 -> IF NLen(s) = 1 /\ s.nums[1] \in {1, 2, 3} THEN Ok(d) ELSE Err(d)
+    [] IsDigit(c) -> Ok([s EXCEPT !.nums = PushDigit(s.nums, c)])
+    [] c = 59 -> Ok([s EXCEPT !.nums = Append(s.nums, 0)])
+    [] c = 114 -> Ok([d EXCEPT !.mtb = <<>>, !.mlr = <<>>])
+    [] c = 109 ->
+         IF NLen(s) # 2 THEN Err(s)                                   \* (!) stays in the CSI = state
+         ELSE LET n == s.nums[2] - 1  k == s.nums[1] IN
+              CASE k = 0 -> Ok(SetTB(d, IF HasTB(d) THEN d.mtb[1] ELSE 0, n))          \* (!) Ps = 0 sets the BOTTOM margin
+                [] k = 1 -> Ok(SetTB(d, n, IF HasTB(d) THEN d.mtb[2] ELSE d.th - 1))
+                [] k = 2 -> Ok(SetLR(d, IF d.mlr # <<>> THEN d.mlr[1] ELSE 0, n))
+                [] k = 3 -> Ok(SetLR(d, n, IF d.mlr # <<>> THEN d.mlr[2] ELSE d.tw - 1))
+                [] OTHER -> Err(d)
+    [] OTHER -> Err(d)
+
+CsiLtStep(s, c) ==
+  CASE IsDigit(c) -> Ok([s EXCEPT !.nums = PushDigit(s.nums, c)])
+    [] c = 59 -> Ok([s EXCEPT !.nums = Append(s.nums, 0)])
+    [] c = 99 -> IF NLen(s) > 1 THEN Err(Dflt(s)) ELSE Ok(Dflt(s))
+    [] OTHER -> Err(Dflt(s))
+
+\* font selection CSI Ps1;Ps2 SP D
+FontSelect(s) ==
+  IF NLen(s) # 2 THEN Err(s)
+  ELSE LET nr == s.nums[2]
+           Succ(t) == LET bl == HasBit(t.ca.at, BLINK)  bo == HasBit(t.ca.at, BOLD)
+                          k == IF bl /\ bo THEN 4 ELSE IF bl THEN 3 ELSE IF bo THEN 2 ELSE 1 IN
+                      [t EXCEPT !.fsel = 0, !.ca.fp = nr, !.fslots[k] = nr] IN
+       IF nr \in s.fonts THEN Ok(Succ(s))
+       ELSE IF nr >= 0 /\ nr <= 42 THEN Ok([Succ(s) EXCEPT !.fonts = @ \cup {nr}])
+       ELSE Err([s EXCEPT !.fsel = 1])
+
+EndCsiStep(s, c) ==
+  LET f == s.endc  d == Dflt(s) IN
+  CASE f = 42 ->      \* '*'
+         CASE c = 122 -> Ok(IF s.nums = <<>> THEN d ELSE InvokeMacro(d, s.nums[1]))
+           [] c = 114 -> Ok(d)
+           [] c = 121 -> IF NLen(s) # 6 THEN Err(d)
+                         ELSE LET pt == s.nums[3]  pl == s.nums[4]  pb == s.nums[5]  pr == s.nums[6] IN
+                              IF pt > pb \/ pl > pr \/ pr > s.tw \/ pb > s.th \/ pl < 0 \/ pt < 0 THEN Err(d) ELSE Ok(d)
+           [] OTHER -> Ok(s)                                         \* (!) swallowed, stays in the state
+    [] f = 36 ->      \* '$'
+         CASE c = 119 -> Ok(d)
+           [] c = 120 ->       \* DECFRA
+                IF NLen(s) # 5 THEN Err(d)
+                ELSE IF ~Scalar(s.nums[1]) THEN Err(d)
+                ELSE LET r == RectArea(d, 1) IN Ok(FillRows(d, r[1], r[3], r[2], r[4], Cell(s.nums[1], s.ca)))
+           [] c = 122 ->       \* DECERA
+                IF NLen(s) # 4 THEN Err(d) ELSE LET r == RectArea(d, 0) IN Ok(FillRows(d, r[1], r[3], r[2], r[4], Blank))
+           [] c = 123 ->       \* DECSERA: blank character, attribute kept
+                IF NLen(s) # 4 THEN Err(d)
+                ELSE LET r == RectArea(d, 0)
+                         RECURSIVE Go(_, _)
+                         Go(t, y) == IF y > r[3] THEN t ELSE Go(WriteRow(t, y, r[2], r[4], LAMBDA x : LET q == BufGet(d, x, y) IN <<32, q[2], q[3], q[4], q[5]>>), y + 1)
+                     IN Ok(Go(d, r[1]))
+           [] OTHER -> Ok(s)
+    [] f = 32 ->      \* ' '
+         CASE c = 68 -> FontSelect(d)
+           [] c = 65 -> Ok(Times(ScrollRight, d, Min(N1(s, 1), d.bw)))
+           [] c = 64 -> Ok(Times(ScrollLeft, d, Min(N1(s, 1), d.bw)))
+           [] c = 100 -> IF NLen(s) # 1 THEN Err(d) ELSE Ok([d EXCEPT !.tabs = RemoveTab(d.tabs, s.nums[1] - 1)])
+           [] OTHER -> Err(d)
+    [] OTHER -> Err(d)
+
+\* CSI sequence body
+CsiStep(s, c) ==
+  LET d == Dflt(s)  n == s.nums  len == Len(s.nums) IN
+  CASE c = 109 -> Sgr(s)
+    [] c = 72 \/ c = 102 ->      \* CUP / HVP
+         Ok(Limit(IF n = <<>> THEN [d EXCEPT !.x = 0, !.y = First(d)]
+                  ELSE [d EXCEPT !.y = SatAdd(First(d), Max(0, n[1] - 1)), !.x = IF len > 1 THEN Max(0, n[2] - 1) ELSE 0]))
+    [] c = 67 -> Ok(Right(d, N1(s, 1)))
+    [] c = 106 \/ c = 68 -> Ok(Left(d, N1(s, 1)))
+    [] c = 107 \/ c = 65 -> Ok(Up(d, N1(s, 1)))
+    [] c = 66 -> Ok(Down(d, N1(s, 1)))
+    [] c = 115 ->      \* 's'
+         IF s.dm
+         THEN (IF len > 2 THEN Err(d)
+               ELSE Ok(IF len = 2 THEN SetLR(d, n[1] - 1, n[2] - 1) ELSE IF len = 1 THEN SetLR(d, 0, n[1] - 1) ELSE SetLR(d, 0, d.th)))   \* (!) height
+         ELSE Ok([d EXCEPT !.sx = s.x, !.sy = s.y])
+    [] c = 117 -> Ok(Limit([d EXCEPT !.x = s.sx, !.y = s.sy]))
+    [] c = 100 -> Ok(Limit([d EXCEPT !.y = SatAdd(First(d), N1(s, 1) - 1)]))
+    [] c = 101 -> Ok(Limit([d EXCEPT !.y = SatAdd(First(d) + d.y, N1(s, 1))]))
+    [] c = 39 ->       \* '\''
+         Ok(IF RowExists(d, d.y) THEN Limit([d EXCEPT !.x = Clamp(N1(s, 1) - 1, 0, LineLen(RowAt(d, d.y), Len(RowAt(d, d.y))))]) ELSE d)
+    [] c = 97 ->       \* HPR
+         Ok(IF RowExists(d, d.y) THEN Limit([d EXCEPT !.x = Min(LineLen(RowAt(d, d.y), Len(RowAt(d, d.y))), SatAdd(d.x, N1(s, 1)))]) ELSE d)
+    [] c = 71 -> Ok(Limit([d EXCEPT !.x = N1(s, 1) - 1]))
+    [] c = 69 -> Ok(Limit([d EXCEPT !.y = SatAdd(First(d) + d.y, N1(s, 1)), !.x = 0]))
+    [] c = 70 -> Ok(Limit([d EXCEPT !.y = SatSub(First(d) + d.y, N1(s, 1)), !.x = 0]))
+    [] c = 110 -> IF len = 1 /\ n[1] \in {5, 6, 255} THEN Ok(d) ELSE Err(d)
+    [] c = 88 -> IF n # <<>> THEN Ok(Erase(d, n[1])) ELSE Err(Erase(d, 1))                   \* (!) erases one cell, then reports an error
+    [] c = 64 -> IF n # <<>> THEN Ok(Times(Ins, d, Min(n[1], d.tw))) ELSE Err(Ins(d))        \* (!) same
+    [] c = 77 ->       \* 'M': delete line, or music
+         IF s.music = 1 \/ s.music = 3 THEN Ok(MusicEnter(d))
+         ELSE IF n = <<>> THEN Ok(IF d.y < NL(d) THEN RemoveTermLine(d, d.y) ELSE d)
+         ELSE IF len # 1 THEN Err(d)
+         ELSE Ok(Times(LAMBDA q : RemoveTermLine(q, q.y), d, Min(n[1], NL(d) - d.y)))
+    [] c = 78 -> Ok(IF s.music = 2 \/ s.music = 3 THEN MusicEnter(s) ELSE s)                 \* (!) does not leave the CSI state
+    [] c = 124 -> Ok(IF s.music # 0 THEN MusicEnter(s) ELSE s)                              \* (!) same
+    [] c = 80 ->       \* DCH
+         IF n = <<>> THEN Ok(Del(d)) ELSE IF len # 1 THEN Err(d) ELSE Ok(Times(Del, d, Min(n[1], Len(RowAt(d, d.y)))))
+    [] c = 76 ->       \* IL
+         IF n = <<>> THEN Ok(InsertTermLine(d, d.y)) ELSE IF len # 1 THEN Err(d) ELSE Ok(Times(LAMBDA q : InsertTermLine(q, q.y), d, Min(n[1], d.th)))
+    [] c = 74 ->       \* ED
+         IF n = <<>> \/ n[1] = 0 THEN Ok(ClearDown(d))
+         ELSE IF n[1] = 1 THEN Ok(ClearUp(d))
+         ELSE IF n[1] = 2 \/ n[1] = 3 THEN Ok(ClearScreen(d))
+         ELSE Err(ClearDown(d))                                                              \* (!) clears, then reports an error
+    [] c = 63 -> IF s.start THEN Ok([s EXCEPT !.ls = "CsiQ"]) ELSE Err(s)                    \* (!) error without leaving the CSI state
+    [] c = 61 -> IF s.start THEN Ok([s EXCEPT !.ls = "CsiEq"]) ELSE Err(s)
+    [] c = 33 -> IF s.start THEN Ok([s EXCEPT !.ls = "CsiBang"]) ELSE Err(s)
+    [] c = 60 -> IF s.start THEN Ok([s EXCEPT !.ls = "CsiLt"]) ELSE Err(s)
+    [] c = 42 \/ c = 36 \/ c = 32 -> Ok([s EXCEPT !.ls = "EndCsi", !.endc = c])
+    [] c = 75 ->       \* EL
+         IF n = <<>> \/ n[1] = 0 THEN Ok(ClearLineEnd(d)) ELSE IF n[1] = 1 THEN Ok(ClearLineStart(d)) ELSE IF n[1] = 2 THEN Ok(ClearLine(d)) ELSE Err(d)
+    [] c = 99 -> Ok(d)
+    [] c = 114 ->      \* DECSTBM / CSR
+         IF len > 4 THEN Err(d)
+         ELSE IF len > 2
+         THEN LET t == [d EXCEPT !.x = 0, !.y = First(d)] IN
+              Ok(SetLR(SetTB(t, n[1] - 1, n[2] - 1), n[3] - 1, IF len = 3 THEN d.tw ELSE n[4] - 1))
+         ELSE LET t == IF len = 2 THEN SetTB(d, n[1] - 1, n[2] - 1) ELSE IF len = 1 THEN SetTB(d, 0, n[1] - 1) ELSE SetTB(d, 0, d.th) IN   \* (!) bottom = height
+              Ok([t EXCEPT !.x = 0, !.y = First(t)])
+    [] c = 104 -> IF len = 1 /\ n[1] = 4 THEN Ok([d EXCEPT !.im = TRUE]) ELSE Err(d)
+    [] c = 108 -> IF len = 1 /\ n[1] = 4 THEN Ok([d EXCEPT !.im = FALSE]) ELSE Err(d)
+    [] c = 126 ->      \* '~'
+         IF len # 1 THEN Err(d)
+         ELSE CASE n[1] = 1 -> Ok([d EXCEPT !.x = 0])
+                [] n[1] = 2 -> Ok(Ins(d))
+                [] n[1] = 3 -> Ok(Del(d))
+                [] n[1] = 4 -> Ok([d EXCEPT !.x = d.tw - 1])
+                [] n[1] = 5 \/ n[1] = 6 -> Ok(d)
+                [] OTHER -> Err(d)
+    [] c = 116 ->      \* 't'
+         IF len = 3 THEN (IF n[1] = 8 THEN LET w == Max(Min(n[3], 132), 1)  h == Max(Min(n[2], 60), 1) IN Ok([d EXCEPT !.tw = w, !.th = h, !.tabs = DefTabs(w)]) ELSE Err(d))
+         ELSE IF len = 4 THEN LET q == PalInsert(d, <<n[2] % 256, n[3] % 256, n[4] % 256>>) IN
+              (IF n[1] = 0 THEN Ok([q.st EXCEPT !.ca.bg = q.idx]) ELSE IF n[1] = 1 THEN Ok([q.st EXCEPT !.ca.fg = q.idx]) ELSE Err(q.st))   \* (!) colour inserted even on error
+         ELSE Err(d)
+    [] c = 83 -> Ok(Times(ScrollUp, d, Min(N1(s, 1), d.lh + 1)))
+    [] c = 84 -> Ok(Times(ScrollDown, d, Min(N1(s, 1), d.lh + 1)))
+    [] c = 98 -> Ok(Times(LAMBDA q : PrintCh(q, Cell(s.last, Norm(d))), d, Min(N1(s, 1), SatMul(d.tw, d.th))))     \* REP
+    [] c = 103 ->      \* TBC
+         IF len > 1 THEN Err(d)
+         ELSE LET k == N1(s, 0) IN IF k = 0 THEN Ok([d EXCEPT !.tabs = RemoveTab(d.tabs, d.x)]) ELSE IF k = 3 \/ k = 5 THEN Ok([d EXCEPT !.tabs = <<>>]) ELSE Err(d)
+    [] c = 89 -> IF len > 1 THEN Err(d) ELSE Ok(Limit(Times(LAMBDA q : [q EXCEPT !.x = NextTab(q, q.x)], d, Min(N1(s, 1), Len(d.tabs) + 1))))
+    [] c = 90 -> IF len > 1 THEN Err(d) ELSE Ok(Limit(Times(LAMBDA q : [q EXCEPT !.x = PrevTab(q, q.x)], d, Min(N1(s, 1), Len(d.tabs) + 1))))
+    [] OTHER ->
+         IF c >= 64 /\ c <= 126 THEN Err(d)
+         ELSE IF IsDigit(c) THEN Ok([s EXCEPT !.start = FALSE, !.nums = PushDigit(s.nums, c)])
+         ELSE IF c = 59 THEN Ok([s EXCEPT !.start = FALSE, !.nums = Append(s.nums, 0)])
+         ELSE Err(d)
+
+DefaultStep(s, c) ==
+  CASE c = 27 -> Ok([s EXCEPT !.ls = "Esc"])
+    [] c = 10 -> Ok(Lf(s))
+    [] c = 12 -> Ok(Ff(s))
+    [] c = 13 -> Ok([s EXCEPT !.x = 0])
+    [] c = 7 -> Ok(s)
+    [] c = 127 -> Ok(Del(s))
+    [] OTHER -> IF c = 8 /\ s.bs THEN Ok(Bs(s))
+                ELSE IF (c = 0 \/ c = 255) /\ s.bs THEN Ok(ResetColor(s))
+                ELSE Ok(PrintCh([s EXCEPT !.last = c], Cell(c, Norm(s))))
+
+\* ansi::Parser::print_char
+AnsiStep(s, c) ==
+  CASE s.ls = "Music" -> MusicStep(s, c)
+    [] s.ls = "Esc" -> EscStep(s, c)
+    [] s.ls = "Aps" -> Ok(IF c = 27 THEN [s EXCEPT !.ls = "ApsEsc"] ELSE [s EXCEPT !.pstr = Append(@, c)])
+    [] s.ls = "ApsEsc" -> Ok(IF c = 92 THEN Dflt(s) ELSE [s EXCEPT !.ls = "Aps", !.pstr = @ \o <<27, c>>])
+    [] s.ls = "DcsMacro" ->
+         LET t == [s EXCEPT !.mdcs = Append(@, c)] IN
+         IF IsDigit(c) THEN (IF s.dmi # 1 THEN Err(Dflt(t)) ELSE Ok([t EXCEPT !.nums = PushDigit(t.nums, c)]))
+         ELSE IF c = 91 THEN (IF s.dmi # 0 THEN Err(Dflt(t)) ELSE Ok([t EXCEPT !.dmi = 1]))
+         ELSE IF c = 42 THEN (IF s.dmi # 1 THEN Err(Dflt(t)) ELSE Ok([t EXCEPT !.dmi = 2]))
+         ELSE IF c = 122 THEN (IF s.dmi # 2 \/ Len(t.nums) # 1 THEN Err(Dflt(t)) ELSE Ok(InvokeMacro([t EXCEPT !.ls = "Dcs"], t.nums[1])))
+         ELSE Ok([t EXCEPT !.ls = "Dcs", !.pstr = @ \o <<27, 91>> \o t.mdcs])
+    [] s.ls = "Dcs" -> Ok(IF c = 27 THEN [s EXCEPT !.ls = "DcsEsc"] ELSE [s EXCEPT !.pstr = Append(@, c)])
+    [] s.ls = "DcsEsc" ->
+         IF c = 92 THEN ExecDcs(s)
+         ELSE IF c = 91 THEN Ok([s EXCEPT !.ls = "DcsMacro", !.dmi = 1, !.mdcs = <<>>])
+         ELSE Ok([s EXCEPT !.ls = "Dcs", !.pstr = @ \o <<27, c>>])
+    [] s.ls = "Osc" -> Ok(IF c = 27 THEN [s EXCEPT !.ls = "OscEsc"] ELSE [s EXCEPT !.pstr = Append(@, c)])
+    [] s.ls = "OscEsc" -> IF c = 92 THEN ExecOsc(s) ELSE Ok([s EXCEPT !.ls = "Osc", !.pstr = @ \o <<27, c>>])
+    [] s.ls = "CsiQ" -> CsiQStep(s, c)
+    [] s.ls = "CsiEq" -> CsiEqStep(s, c)
+    [] s.ls = "CsiBang" ->
+         IF c = 112 THEN Ok(LET t == CaretReset(ResetTerminal(Dflt(s))) IN [t EXCEPT !.y = First(t)])       \* DECSTR
+         ELSE AnsiStep(Dflt(s), c)                                                              \* (!) re-dispatched from the ground state
+    [] s.ls = "CsiLt" -> CsiLtStep(s, c)
+    [] s.ls = "EndCsi" -> EndCsiStep(s, c)
+    [] s.ls = "Csi" -> CsiStep(s, c)
+    [] OTHER -> DefaultStep(s, c)
+
+\* ------------------------------------------------------------------ front-ends wrapping the ANSI parser
+\* TextAttribute::from_u8(b, buffer ice mode): a fresh attribute (flags and font page reset)
+AttrFromU8(b, iceBuf) ==
+  IF iceBuf THEN [fg |-> b % 16, bg |-> b \div 16, at |-> 0, fp |-> 0]
+  ELSE [fg |-> b % 16, bg |-> (b \div 16) % 8, at |-> IF b >= 128 THEN BLINK ELSE 0, fp |-> 0]
+
+\* avatar::Parser::print_char
+AvatarStep(s, c) ==
+  LET f == s.fe  F(k, n, rc) == [s EXCEPT !.fe = [@ EXCEPT !.k = k, !.n = n, !.rc = rc]] IN
+  CASE f.k = "chars" ->
+         IF c = 12 THEN Ok(Ff(s))
+         ELSE IF c = 25 THEN Ok(F("rep", 1, f.rc))
+         ELSE IF c = 22 THEN Ok(F("cmd", f.n, f.rc))
+         ELSE AnsiStep(s, c)
+    [] f.k = "cmd" ->
+         LET back == F("chars", f.n, f.rc) IN
+         CASE c = 1 -> Ok(F("color", f.n, f.rc))
+           [] c = 2 -> Ok(Limit([back EXCEPT !.ca.at = SetBit(@, BLINK)]))
+           [] c = 3 -> Ok(Limit([back EXCEPT !.y = Max(0, s.y - 1)]))
+           [] c = 4 -> Ok(Limit([back EXCEPT !.y = s.y + 1]))
+           [] c = 5 -> Ok(Limit([back EXCEPT !.x = Max(0, s.x - 1)]))
+           [] c = 6 -> Ok(Limit([back EXCEPT !.x = Min(79, s.x + 1)]))
+           [] c = 7 -> Err(s)                                             \* (!) stays in the command state
+           [] c = 8 -> Ok(F("move", 1, f.rc))
+           [] OTHER -> Err(back)
+    [] f.k = "rep" ->
+         IF f.n = 1 THEN Ok(F("rep", 2, c))
+         ELSE IF f.n = 2 THEN
+           LET RECURSIVE Go(_, _)
+               Go(t, k) == IF k = 0 THEN Ok([t EXCEPT !.fe.k = "chars"])
+                           ELSE LET r == AnsiStep(t, f.rc) IN IF r.res = "err" THEN Err(r.st) ELSE Go(r.st, k - 1)   \* (!) an error aborts the loop in state rep/3
+           IN Go(F("rep", 3, f.rc), c)
+         ELSE Err(F("chars", f.n, f.rc))
+    [] f.k = "color" -> Ok([F("chars", f.n, f.rc) EXCEPT !.ca = AttrFromU8(c, s.bice)])
+    [] f.k = "move" ->
+         IF f.n = 1 THEN Ok(F("move", 2, c))
+         ELSE IF f.n = 2 THEN Ok(Limit([F("chars", f.n, f.rc) EXCEPT !.x = f.rc, !.y = c]))
+         ELSE Err(s)
+    [] OTHER -> Err(s)
+
+\* pcboard::Parser::print_char
+ConvCh(c) == IF IsDigit(c) THEN c - 48 ELSE IF c >= 97 /\ c <= 102 THEN c - 87 ELSE IF c >= 65 /\ c <= 70 THEN c - 55 ELSE 0
+PcbStep(s, c) ==
+  LET f == s.fe IN
+  IF f.color THEN
+    (LET pos == f.pos + 1 IN
+     IF pos = 1 THEN Ok([s EXCEPT !.fe.pos = 1, !.fe.val = ConvCh(c)])
+     ELSE LET v == ((f.val * 16) % 256) + ConvCh(c)
+              t == IF pos = 2 THEN [s EXCEPT !.ca = AttrFromU8(v, s.bice), !.fe.val = v] ELSE s
+          IN Ok([t EXCEPT !.fe.pos = pos, !.fe.color = FALSE, !.fe.code = FALSE]))
+  ELSE IF f.code THEN
+    Ok(IF c = 64 THEN [s EXCEPT !.fe.code = FALSE] ELSE IF c = 88 THEN [s EXCEPT !.fe.color = TRUE, !.fe.pos = 0] ELSE s)
+  ELSE IF c = 64 THEN Ok([s EXCEPT !.fe.code = TRUE])
+  ELSE AnsiStep(s, c)
+
+\* ctrla::Parser::print_char
+SeqPos(str, c) == LET RECURSIVE P(_)
+                      P(i) == IF i > Len(str) THEN 0 ELSE IF str[i] = c THEN i ELSE P(i + 1)
+                  IN P(1)                                       \* 1-based position or 0
+CtrlAFg == <<75, 66, 71, 67, 82, 77, 89, 87>>     \* "KBGCRMYW"
+CtrlABg == <<48, 52, 50, 54, 49, 53, 51, 55>>     \* "04261537"
+CtrlAStep(s, c) ==
+  IF s.fe.ca THEN
+    LET t == [s EXCEPT !.fe.ca = FALSE] IN
+    CASE c = 76 -> Ok(ClearScreen(t))
+      [] c = 39 -> Ok([t EXCEPT !.x = 0, !.y = First(t)])
+      [] c = 74 -> Ok(ClearDown(t))
+      [] c = 62 -> Ok(ClearLineEnd(t))
+      [] c = 60 -> Ok(Left(t, 1))
+      [] c = 124 -> Ok([t EXCEPT !.x = 0])
+      [] c = 93 -> Ok(Down(t, 1))
+      [] c = 65 -> Ok(AnsiStep(t, 1).st)
+      [] c = 72 -> Ok([t EXCEPT !.fe.bold = TRUE, !.ca.fg = IF @ < 8 THEN @ + 8 ELSE @])
+      [] c = 73 -> Ok([t EXCEPT !.ca.at = SetBit(@, BLINK)])
+      [] c = 69 -> Ok([t EXCEPT !.fe.hbg = TRUE, !.ca.bg = IF @ < 8 THEN @ + 8 ELSE @])
+      [] c = 78 -> Ok(ResetColor([t EXCEPT !.fe.hbg = FALSE, !.fe.bold = FALSE]))
+      [] c = 90 -> Ok(t)
+      [] OTHER ->
+           IF SeqPos(CtrlAFg, c) > 0 THEN Ok([t EXCEPT !.ca.fg = SeqPos(CtrlAFg, c) - 1 + (IF t.fe.bold THEN 8 ELSE 0)])
+           ELSE IF SeqPos(CtrlABg, c) > 0 THEN Ok([t EXCEPT !.ca.bg = SeqPos(CtrlABg, c) - 1 + (IF t.fe.hbg THEN 8 ELSE 0)])
+           ELSE IF c >= 128 THEN Ok(Right(t, c - 127))
+           ELSE Ok(t)
+  ELSE IF c = 1 THEN Ok([s EXCEPT !.fe.ca = TRUE])
+  ELSE AnsiStep(s, c)
+
+\* renegade::Parser::print_char
+RenegadeStep(s, c) ==
+  CASE s.fe.rk = 0 -> IF c = 124 THEN Ok([s EXCEPT !.fe.rk = 1]) ELSE AnsiStep(s, c)
+    [] s.fe.rk = 1 -> IF c >= 48 /\ c <= 51 THEN Ok([s EXCEPT !.fe.rk = 2, !.fe.first = (c - 48) * 10]) ELSE Err([s EXCEPT !.fe.rk = 0])
+    [] OTHER -> LET t == [s EXCEPT !.fe.rk = 0] IN
+                IF ~IsDigit(c) THEN Err(t)
+                ELSE LET col == s.fe.first + (c - 48) IN Ok(IF col < 16 THEN [t EXCEPT !.ca.fg = col] ELSE [t EXCEPT !.ca.bg = col - 16])
+
+\* ascii::Parser::print_char (uses the raw caret attribute)
+AsciiStep(s, c) ==
+  CASE c = 0 \/ c = 255 -> Ok(ResetColor(s))
+    [] c = 7 -> Ok(s)
+    [] c = 10 -> Ok(Lf(s))
+    [] c = 12 -> Ok(Ff(s))
+    [] c = 13 -> Ok([s EXCEPT !.x = 0])
+    [] c = 8 -> Ok(Bs(s))
+    [] c = 127 -> Ok(Del(s))
+    [] OTHER -> Ok(PrintCh(s, Cell(c, s.ca)))
+
+Step(s, c) ==
+  CASE s.emu = "ansi" -> AnsiStep(s, c)
+    [] s.emu = "avatar" -> AvatarStep(s, c)
+    [] s.emu = "pcboard" -> PcbStep(s, c)
+    [] s.emu = "ctrla" -> CtrlAStep(s, c)
+    [] s.emu = "renegade" -> RenegadeStep(s, c)
+    [] s.emu = "ascii" -> AsciiStep(s, c)
+    [] OTHER -> AnyRes(s)
+
+\* ------------------------------------------------------------------ initial state and projection
+InitStE(emu, w, h, alloc, music, bs) ==
+  [emu |-> emu,
+   fe |-> [k |-> "chars", n |-> 0, rc |-> 32, code |-> FALSE, color |-> FALSE, val |-> 0, pos |-> 0, ca |-> FALSE, bold |-> FALSE, hbg |-> FALSE, rk |-> 0, first |-> 0],
+   tw |-> w, th |-> h, bw |-> w, bh |-> h, lw |-> w, lh |-> h,
+   rows |-> IF alloc THEN Repeat(Repeat(InvCell, w), h) ELSE <<>>,
+   x |-> 0, y |-> 0, ca |-> DefAttr, im |-> FALSE, vis |-> TRUE, cblink |-> TRUE, ice |-> FALSE, bice |-> FALSE,
+   mtb |-> <<>>, mlr |-> <<>>, aw |-> TRUE, dm |-> FALSE, tabs |-> DefTabs(w),
+   sx |-> 0, sy |-> 0, sc |-> <<>>, pal |-> Dos16, fonts |-> {0}, fsel |-> 99, fslots |-> <<0, 0, 0, 0>>,
+   ps |-> 0, phl |-> 0, lhl |-> 0,
+   ls |-> "Default", start |-> FALSE, endc |-> 0, dmi |-> 0, nums |-> <<>>, pstr |-> <<>>, mdcs |-> <<>>,
+   macros |-> <<>>, mdepth |-> 0, mbudget |-> 0, last |-> 0, music |-> music, bs |-> bs,
+   mus |-> [k |-> "default", a |-> 0, b |-> 0], octave |-> 3, mlength |-> 4, tempo |-> 120, dotted |-> FALSE]
+
+InitSt(w, h, alloc, music, bs) == InitStE("ansi", w, h, alloc, music, bs)
+Modelled(emu) == emu \in {"ansi", "avatar", "pcboard", "ctrla", "renegade", "ascii"}
+
+\* comparison with a recorded event e (see harness/src/term.rs state_event)
+B(v) == IF v THEN 1 ELSE 0
+NormAttr(s) == LET a == Norm(s) IN <<a.fg, a.bg, a.at, a.fp>>
+RowLensOk(s, e) == \A i \in 1..Len(e.ll) : LET y == e.ll[i][1] IN y < NL(s) /\ Len(s.rows[y + 1]) = e.ll[i][2]
+RowsOk(s, e) == "rows" \notin DOMAIN e \/ (\A i \in 1..Len(e.rows) : LET y == e.rows[i][1] IN y < NL(s) /\ s.rows[y + 1] = e.rows[i][2])
+Fields(s, e) ==
+  << <<"cx", s.x = e.cx>>, <<"cy", s.y = e.cy>>, <<"tw", s.tw = e.tw>>, <<"th", s.th = e.th>>, <<"bw", s.bw = e.bw>>, <<"bh", s.bh = e.bh>>,
+     <<"lw", s.lw = e.lw>>, <<"lh", s.lh = e.lh>>, <<"nl", NL(s) = e.nl>>, <<"mtb", s.mtb = e.mtb>>, <<"mlr", s.mlr = e.mlr>>,
+     <<"aw", B(s.aw) = e.aw>>, <<"im", B(s.im) = e.im>>, <<"dm", B(s.dm) = e.dm>>, <<"vis", B(s.vis) = e.vis>>, <<"ice", B(s.ice) = e.ice>>,
+     <<"ca", NormAttr(s) = e.ca>>, <<"pal", Len(s.pal) = e.pal>>, <<"ps", s.ps = e.ps>>, <<"hl", s.lhl = e.hl>>,
+     <<"tabs", "tabs" \notin DOMAIN e \/ s.tabs = e.tabs>>, <<"ll", RowLensOk(s, e)>>, <<"rows", RowsOk(s, e)>> >>
+Matches(s, e) ==
+  /\ s.x = e.cx /\ s.y = e.cy /\ s.tw = e.tw /\ s.th = e.th /\ s.bw = e.bw /\ s.bh = e.bh /\ s.lw = e.lw /\ s.lh = e.lh
+  /\ NL(s) = e.nl /\ s.mtb = e.mtb /\ s.mlr = e.mlr /\ B(s.aw) = e.aw /\ B(s.im) = e.im /\ B(s.dm) = e.dm /\ B(s.vis) = e.vis /\ B(s.ice) = e.ice
+  /\ NormAttr(s) = e.ca /\ Len(s.pal) = e.pal /\ s.ps = e.ps /\ s.lhl = e.hl
+  /\ ("tabs" \notin DOMAIN e \/ s.tabs = e.tabs) /\ RowLensOk(s, e) /\ RowsOk(s, e)
+Diff(s, e) == LET f == Fields(s, e)  bad == SelectSeq(f, LAMBDA p : ~p[2]) IN [i \in 1..Len(bad) |-> bad[i][1]]
+
+\* adopt the recorded observables (the lexer state is not observable and keeps the model's value)
+RowResize(row, n) == IF Len(row) >= n THEN SubSeq(row, 1, n) ELSE row \o Repeat(InvCell, n - Len(row))
+AdoptRows(s, e) ==
+  LET r0 == IF NL(s) >= e.nl THEN SubSeq(s.rows, 1, e.nl) ELSE s.rows \o Repeat(<<>>, e.nl - NL(s))
+      RECURSIVE Go(_, _)
+      Go(r, i) == IF i > Len(e.ll) THEN r ELSE LET y == e.ll[i][1] IN Go(IF y < Len(r) THEN [r EXCEPT ![y + 1] = RowResize(@, e.ll[i][2])] ELSE r, i + 1)
+      r1 == Go(r0, 1)
+      RECURSIVE Go2(_, _)
+      Go2(r, i) == IF i > Len(e.rows) THEN r ELSE LET y == e.rows[i][1] IN Go2(IF y < Len(r) THEN [r EXCEPT ![y + 1] = e.rows[i][2]] ELSE r, i + 1)
+  IN IF "rows" \in DOMAIN e THEN Go2(r1, 1) ELSE r1
+Adopt(s, e) ==
+  IF Matches(s, e) THEN s
+  ELSE [s EXCEPT !.x = e.cx, !.y = e.cy, !.tw = e.tw, !.th = e.th, !.bw = e.bw, !.bh = e.bh, !.lw = e.lw, !.lh = e.lh,
+                 !.mtb = e.mtb, !.mlr = e.mlr, !.aw = (e.aw = 1), !.im = (e.im = 1), !.dm = (e.dm = 1), !.vis = (e.vis = 1), !.ice = (e.ice = 1),
+                 !.ca = IF NormAttr(s) = e.ca THEN s.ca ELSE [fg |-> e.ca[1], bg |-> e.ca[2], at |-> e.ca[3], fp |-> e.ca[4]],
+                 !.pal = IF Len(s.pal) = e.pal THEN s.pal ELSE IF Len(s.pal) > e.pal THEN SubSeq(s.pal, 1, e.pal) ELSE s.pal \o Repeat(<<0, 0, 0>>, e.pal - Len(s.pal)),
+                 !.ps = e.ps, !.lhl = e.hl, !.tabs = IF "tabs" \in DOMAIN e THEN e.tabs ELSE s.tabs,
+                 !.rows = AdoptRows(s, e)]
 =============================================================================
